@@ -60,7 +60,13 @@ type memNode struct {
 // i.e. collision-free by construction, with a symbolic relative order.
 type atomIO struct{ api *memAPI }
 
-func (io *atomIO) Write(_ context.Context, _ coreiface.CoreAPI, obj interface{}, _ *iface.WriteOpts) (cid.Cid, error) {
+func (io *atomIO) Write(_ context.Context, _ coreiface.CoreAPI, obj interface{}, _ *iface.WriteOpts) (c cid.Cid, err error) {
+	// a block store is safe for concurrent use (like the DAG service behind the real codec): one atomic step
+	vx.Atomic(func() { c, err = io.write(obj) })
+	return c, err
+}
+
+func (io *atomIO) write(obj interface{}) (cid.Cid, error) {
 	api := io.api
 	api.writes++
 	if api.failWrites != 0 && api.writes == api.failWrites {
